@@ -10,7 +10,7 @@ under /tmp (never /repo itself):
 import json, os, re, shutil, subprocess, sys, time
 
 VERIF = os.path.dirname(os.path.dirname(os.path.abspath(__file__)))
-WT = "/tmp/fxconfirm/wt"
+WT = os.environ.get("FXMC_CONFIRM_WT", "/tmp/fxconfirm/wt")    # a second confirmation can run in parallel in another scratch worktree
 JOBS = os.environ.get("FXMC_CONFIRM_JOBS", "8")
 
 
